@@ -32,6 +32,7 @@ type gcConfCase struct {
 	Behav    [2]string
 	CancelS1 bool
 	S2Phase  int // 1 concurrently with the publishers, 2 after them
+	S1Phase  int // 0 before the publishers, 1 concurrently with them (a publish may find the topic without subscription)
 }
 
 func gcConformance(c *Ctx, n int) {
@@ -44,7 +45,7 @@ func gcConformance(c *Ctx, n int) {
 	var runs []*tr.Run
 	for i := 0; i < n; i++ {
 		cs := gcConfCase{Variant: variants[i%3], Behav: [2]string{[]string{"ack", "nack1", "ack"}[c.Rng.Intn(3)], []string{"ack", "ack", "nack1"}[c.Rng.Intn(3)]},
-			CancelS1: c.Rng.Intn(3) == 0, S2Phase: 1 + c.Rng.Intn(2)}
+			CancelS1: c.Rng.Intn(3) == 0, S2Phase: 1 + c.Rng.Intn(2), S1Phase: (i / 3) % 2}
 		if cs.Variant == "volatile" && cs.S2Phase == 2 {
 			cs.S2Phase = 1
 		}
@@ -126,7 +127,12 @@ func gcConfRun(r *tr.Run, cs gcConfCase) {
 	if cs.CancelS1 {
 		ca = 1
 	}
-	subscribe("s1", cs.Behav[0], ca)
+	if cs.S1Phase == 0 {
+		subscribe("s1", cs.Behav[0], ca)
+	} else {
+		wg.Add(1)
+		go func() { defer wg.Done(); subscribe("s1", cs.Behav[0], ca) }()
+	}
 	for k := 1; k <= 2; k++ {
 		k := k
 		wg.Add(1)
